@@ -1,5 +1,6 @@
 import RedisVerif.Model.Shards
 import RedisVerif.Model.Redis
+import RedisVerif.Model.RedisX
 
 /-
   A SMALL concrete per-shard executor (strings + lists) that instantiates `Shards.Exec`:
@@ -266,68 +267,26 @@ def keyBytesAux : Nat → Nat → List Nat → List Nat
 /-- fuel: a code `n` has fewer than `n` base-256 digits -/
 def keyBytes (k : Key) : Bytes := keyBytesAux k k []
 
-def suffixes {α : Type} : List α → List (List α)
-  | [] => [[]]
-  | x :: xs => (x :: xs) :: suffixes xs
+/-- `CommandExecutor::glob_match` (src/redis/executor/mod.rs) since the fixes 2ad439d / 0e17d33:
+    the matcher scans a class once as Redis' `stringmatchlen` does (`\\x` literal inside and outside a
+    class, ranges in either order, `^` negation, an unclosed class runs to the end of the pattern,
+    a trailing lone backslash is a literal).  It is the same function as the reference model's
+    `RedisX.globMatch` (C01 compares that one with the real KEYS / SCAN MATCH on every run); the
+    pinned matcher (first `]` closes, no escapes, unterminated class never matches) is gone from
+    the code and from this model. -/
+def globB (p k : List Nat) : Bool := RedisX.globMatch p k
 
-/-- `while bracket_end < len && pattern[bracket_end] != ']'`: the class body up to the FIRST `]`
-    and what follows it; `none` when the class is not terminated -/
-def splitClass : List Nat → Option (List Nat × List Nat)
-  | [] => none
-  | c :: p => if c = 93 then some ([], p) else (splitClass p).map (fun r => (c :: r.1, r.2))
-
-/-- `for c in start..=end` on bytes -/
-def byteRange (a c : Nat) : List Nat := if a ≤ c then (List.range (c - a + 1)).map (· + a) else []
-
-/-- the range loop of `glob_match`: `x-y` is a range when all three bytes are inside the class
-    body (`i + 2 < char_set.len()`); a trailing `x-` is two literals; `start > end` adds nothing -/
-def expandClass : List Nat → List Nat
-  | a :: b :: c :: rest =>
-    if b = 45 then byteRange a c ++ expandClass rest else a :: expandClass (b :: c :: rest)
-  | a :: rest => a :: expandClass rest
-  | [] => []
-
-/-- does byte `x` match the class body `cs` (between `[` and the first `]`)?  `^` first negates;
-    an expansion that comes out empty falls back to the literal body -/
-def classMatch (cs : List Nat) (x : Nat) : Bool :=
-  let neg := match cs with | 94 :: _ => true | _ => false
-  let body := match cs with | 94 :: r => r | r => r
-  let chars := if (expandClass body).isEmpty then body else expandClass body
-  if neg then !chars.contains x else chars.contains x
-
-/-- `CommandExecutor::glob_match` (src/redis/executor/mod.rs): `*`, `?`, `[...]` classes with `^`
-    negation and ranges, no escapes; an unterminated `[` never matches.  Fuel = pattern length
-    (every step consumes at least one pattern byte). -/
-def globF : Nat → List Nat → List Nat → Bool
-  | _, [], k => k.isEmpty
-  | 0, _ :: _, _ => false
-  | f + 1, c :: p, k =>
-    if c = 42 then (suffixes k).any (globF f p)
-    else if c = 63 then
-      match k with
-      | [] => false
-      | _ :: k' => globF f p k'
-    else if c = 91 then
-      match splitClass p with
-      | none => false
-      | some (cs, rest) =>
-        match k with
-        | [] => false
-        | x :: k' => classMatch cs x && globF f rest k'
-    else
-      match k with
-      | [] => false
-      | x :: k' => x = c && globF f p k'
-
-def globB (p k : List Nat) : Bool := globF p.length p k
-
--- `k[0-9]` matches `k5`; `k[0-` (unterminated) matches nothing, not even itself; `[^]` matches any
--- one byte; an empty class matches nothing; a trailing `x-` is two literals
+-- `k[0-9]` matches `k5`; an unclosed class runs to the end of the pattern (`k[0-` matches `k0`
+-- and `k-`, not itself); `[^]` is an EMPTY negated class: any one byte; an empty class matches
+-- nothing; `[z-a]` is the range a..z; `\*` is a literal star
 example : globB [107, 91, 48, 45, 57, 93] [107, 53] = true := by decide
 example : globB [107, 91, 48, 45] [107, 91, 48, 45] = false := by decide
+example : globB [107, 91, 48, 45] [107, 48] = true := by decide
 example : globB [91, 94, 93] [113] = true := by decide
 example : globB [91, 93] [113] = false := by decide
-example : globB [91, 97, 45, 93] [45] = true := by decide
+example : globB [91, 122, 45, 97, 93] [109] = true := by decide
+example : globB [92, 42] [42] = true := by decide
+example : globB [92, 42] [113] = false := by decide
 
 def exec : Exec sig :=
   { exec1 := exec1
